@@ -208,24 +208,26 @@ macro_rules! tp_valid_agree {
     };
 }
 //@ props: C18
-//@ tier: quick
+//@ tier: thorough
 //@ stubs: yes
 //@ unwindset: memcmp=3 CharSearcher=2
+//@ mem: 16  timeout: 2400
 //@ functions: topic::is_valid, TryFrom<ByteString> for TopicFilter, TopicFilter::is_valid, TopicFilterLevel::is_valid, is_system, recover_bstr
 //@ bounds: all ASCII (1..=127) strings of length 0..=4
 //@ assumes: bytes in 1..=127
 //@ desc: both validators agree with the section 4.7.1 oracle (and hence with each other) on every string
 tp_valid_agree!(tp_valid_agree_4, 4, 7);
 //@ props: C18
-//@ tier: thorough
+//@ tier: quick
 //@ stubs: yes
 //@ unwindset: memcmp=3 CharSearcher=2
 //@ functions: topic::is_valid, TryFrom<ByteString> for TopicFilter, TopicFilter::is_valid
-//@ bounds: all ASCII (1..=127) strings of length 0..=6
+//@ bounds: all ASCII (1..=127) strings of length 0..=3
 //@ assumes: bytes in 1..=127
-//@ mem: 12  timeout: 1800
-//@ desc: as tp_valid_agree_4, length 6
-tp_valid_agree!(tp_valid_agree_6, 6, 9);
+//@ mem: 12  timeout: 1500
+//@ desc: both validators (byte state machine, parser) agree with the section 4.7.1 oracle and hence with each other on every string of length <= 3
+tp_valid_agree!(tp_valid_agree_3, 3, 6);
+
 
 vharness! {
     //@ props: C18
@@ -237,36 +239,109 @@ vharness! {
     #[kani::stub(str::contains, stub_str_contains)]
     #[kani::stub(str::starts_with, stub_str_starts_with)]
     #[kani::stub(core::slice::memchr::memchr, stub_memchr)]
-    fn twin_tp_valid_agree() unwind(7) {
-        let (d, len) = any_ascii::<4>();
+    fn twin_tp_valid_agree() unwind(6) {
+        let (d, len) = any_ascii::<3>();
         let s = bstr(d, len);
         assert!(!is_valid(s.as_str()));
     }
 }
 
+// ---- level-list inputs ----------------------------------------------------------------------------
+// Matching, covering and display are decided on filters given as LEVEL LISTS (the crate's own
+// representation, built through the public TryFrom<Vec<TopicFilterLevel>>), with the filter TEXT
+// for the oracle produced by the harness' own concatenation. Parsing text into levels is decided
+// separately by tp_parse_* (string inputs); going through the std `split`/`collect` machinery for
+// every filter made each matching query 10x larger without adding coverage.
+
+#[cfg(kani)]
+use crate::mvec8::Vec;
+
+pub(crate) struct FText {
+    pub d: [u8; 12],
+    pub n: usize,
+}
+
+/// symbolic level list of 1..=NL levels, each literal level 1..=S ASCII bytes (no '/', '+', '#');
+/// returns the levels and the text they denote
+fn any_levels<const NL: usize, const S: usize>() -> (Vec<TopicFilterLevel>, FText) {
+    let nl = vk::any_len(NL);
+    vk::assume(nl >= 1);
+    let mut v = Vec::new();
+    let mut t = FText { d: [0; 12], n: 0 };
+    let mut i = 0;
+    while i < nl {
+        if i > 0 {
+            t.d[t.n] = b'/';
+            t.n += 1;
+        }
+        let k = vk::any_u8();
+        vk::assume(k < 5);
+        match k {
+            0 | 1 => {
+                let d: [u8; S] = vk::any_bytes::<S>();
+                let len = vk::any_len(S);
+                vk::assume(len >= 1);
+                let mut j = 0;
+                while j < S {
+                    vk::assume(d[j] >= 1 && d[j] <= 127 && d[j] != b'/' && d[j] != b'+' && d[j] != b'#');
+                    j += 1;
+                }
+                // the parser classifies a first level starting with '$' as System, anything else as Normal
+                let sys = i == 0 && d[0] == b'$';
+                vk::assume((k == 1) == sys);
+                let mut j = 0;
+                while j < len {
+                    t.d[t.n] = d[j];
+                    t.n += 1;
+                    j += 1;
+                }
+                let s = bstr(d, len);
+                v.push(if sys { TopicFilterLevel::System(s) } else { TopicFilterLevel::Normal(s) });
+            }
+            2 => v.push(TopicFilterLevel::Blank),
+            3 => {
+                t.d[t.n] = b'+';
+                t.n += 1;
+                v.push(TopicFilterLevel::SingleWildcard);
+            }
+            _ => {
+                t.d[t.n] = b'#';
+                t.n += 1;
+                v.push(TopicFilterLevel::MultiWildcard);
+            }
+        }
+        i += 1;
+    }
+    // the property quantifies over filter STRINGS: the one level list that denotes the empty
+    // string, [Blank], is outside it (no string parses to it)
+    vk::assume(t.n >= 1);
+    (v, t)
+}
+
 macro_rules! tp_match {
-    ($name:ident, $nf:expr, $nt:expr, $uw:expr) => {
+    ($name:ident, $nl:expr, $s:expr, $nt:expr, $uw:expr) => {
         vharness! {
             #[kani::stub(str::contains, stub_str_contains)]
             #[kani::stub(str::starts_with, stub_str_starts_with)]
             #[kani::stub(core::slice::memchr::memchr, stub_memchr)]
             fn $name() unwind($uw) {
-                let (fd, fl) = any_ascii::<$nf>();
+                let (lv, ft) = any_levels::<$nl, $s>();
                 let (td, tl) = any_ascii::<$nt>();
-                vk::assume(spec_valid_filter(&fd[..fl]));
                 vk::assume(spec_valid_topic(&td[..tl]));
-                let f = match TopicFilter::try_from(bstr(fd, fl)) {
-                    Ok(f) => f,
-                    Err(_) => { assert!(false); return; }
+                let want_valid = spec_valid_filter(&ft.d[..ft.n]);
+                let f = match TopicFilter::try_from(lv) {
+                    Ok(f) => { assert!(want_valid); f }
+                    Err(_) => { assert!(!want_valid); return; }
                 };
                 let t = bstr(td, tl);
                 let got = f.matches_topic(t.as_str());
-                let want = spec_match(&fd[..fl], &td[..tl]);
+                let want = spec_match(&ft.d[..ft.n], &td[..tl]);
                 assert!(got == want);
                 vcover!(want, "match");
                 vcover!(!want, "no match");
-                vcover!(want && fd[fl - 1] == b'#' && tl < fl, "multi-level wildcard matches parent");
-                vcover!(!want && td[0] == b'$' && fd[0] == b'+', "dollar topic refused by leading +");
+                vcover!(want && ft.d[ft.n - 1] == b'#' && spec_level_count(&td[..tl]) < spec_level_count(&ft.d[..ft.n]), "multi-level wildcard matches parent");
+                vcover!(!want && td[0] == b'$' && ft.d[0] == b'+', "dollar topic refused by leading +");
+                vcover!(!want && td[0] == b'$' && ft.d[0] == b'#', "dollar topic refused by leading #");
                 vcover!(want && td[0] == b'$', "dollar topic matched by literal first level");
             }
         }
@@ -276,22 +351,22 @@ macro_rules! tp_match {
 //@ tier: quick
 //@ stubs: yes
 //@ unwindset: memcmp=3 CharSearcher=2
-//@ functions: TopicFilter::matches_topic, match_topic, MatchLevel for AsRef<str>, is_system, TryFrom<ByteString> for TopicFilter
-//@ bounds: all valid ASCII filters of length 1..=4 x all wildcard-free ASCII topics of length 1..=4
-//@ assumes: bytes in 1..=127; filter valid per section 4.7.1 oracle; topic non-empty and wildcard free
-//@ mem: 8  timeout: 900
-//@ desc: matches_topic == section 4.7 oracle (parent match of #, + on empty levels, $ rule) for every pair
-tp_match!(tp_match_4_4, 4, 4, 8);
+//@ functions: TryFrom<Vec<TopicFilterLevel>> for TopicFilter, TopicFilter::is_valid, TopicFilter::matches_topic, match_topic, MatchLevel for AsRef<str>, is_system
+//@ bounds: all filters of 1..=3 levels (each: literal of 1..=2 ASCII bytes incl. '$', empty, '+', '#' in ANY position) x all wildcard-free ASCII topics of 1..=4 bytes
+//@ assumes: bytes in 1..=127; literal levels contain no '/', '+', '#'; a literal first level starting with '$' is a System level (what the parser produces, see tp_parse_*)
+//@ mem: 10  timeout: 1200
+//@ desc: level-list validation agrees with the section 4.7.1 oracle ('#' only last), and matches_topic == section 4.7 oracle (parent match of '#', '+' on empty levels, '$' rule) for every (filter, topic) pair
+tp_match!(tp_match_3_4, 3, 2, 4, 10);
 //@ props: C18
 //@ tier: thorough
 //@ stubs: yes
 //@ unwindset: memcmp=3 CharSearcher=2
 //@ functions: TopicFilter::matches_topic, match_topic, MatchLevel for AsRef<str>
-//@ bounds: all valid ASCII filters of length 1..=5 x all wildcard-free ASCII topics of length 1..=5
-//@ assumes: bytes in 1..=127; filter valid; topic non-empty and wildcard free
-//@ mem: 14  timeout: 3000
-//@ desc: as tp_match_4_4, length 5
-tp_match!(tp_match_5_5, 5, 5, 9);
+//@ bounds: filters of 1..=4 levels (literals 1..=2 bytes) x topics of 1..=6 bytes
+//@ assumes: as tp_match_3_4
+//@ mem: 16  timeout: 3000
+//@ desc: as tp_match_3_4, deeper
+tp_match!(tp_match_4_6, 4, 2, 6, 13);
 
 vharness! {
     //@ props: C18
@@ -303,12 +378,11 @@ vharness! {
     #[kani::stub(str::contains, stub_str_contains)]
     #[kani::stub(str::starts_with, stub_str_starts_with)]
     #[kani::stub(core::slice::memchr::memchr, stub_memchr)]
-    fn twin_tp_match() unwind(7) {
-        let (fd, fl) = any_ascii::<3>();
+    fn twin_tp_match() unwind(6) {
+        let (lv, _ft) = any_levels::<2, 1>();
         let (td, tl) = any_ascii::<3>();
-        vk::assume(spec_valid_filter(&fd[..fl]));
         vk::assume(spec_valid_topic(&td[..tl]));
-        if let Ok(f) = TopicFilter::try_from(bstr(fd, fl)) {
+        if let Ok(f) = TopicFilter::try_from(lv) {
             let t = bstr(td, tl);
             assert!(!f.matches_topic(t.as_str()));
         }
@@ -316,28 +390,29 @@ vharness! {
 }
 
 macro_rules! tp_cover_sound {
-    ($name:ident, $n:expr, $uw:expr) => {
+    ($name:ident, $nl:expr, $nt:expr, $uw:expr) => {
         vharness! {
             #[kani::stub(str::contains, stub_str_contains)]
             #[kani::stub(str::starts_with, stub_str_starts_with)]
             #[kani::stub(core::slice::memchr::memchr, stub_memchr)]
             fn $name() unwind($uw) {
-                let (fd, fl) = any_ascii::<$n>();
-                let (gd, gl) = any_ascii::<$n>();
-                let (td, tl) = any_ascii::<$n>();
-                vk::assume(spec_valid_filter(&fd[..fl]));
-                vk::assume(spec_valid_filter(&gd[..gl]));
+                let (flv, ft) = any_levels::<$nl, 1>();
+                let (glv, gt) = any_levels::<$nl, 1>();
+                let (td, tl) = any_ascii::<$nt>();
+                vk::assume(spec_valid_filter(&ft.d[..ft.n]));
+                vk::assume(spec_valid_filter(&gt.d[..gt.n]));
                 vk::assume(spec_valid_topic(&td[..tl]));
-                let f = match TopicFilter::try_from(bstr(fd, fl)) { Ok(f) => f, Err(_) => { assert!(false); return; } };
-                let g = match TopicFilter::try_from(bstr(gd, gl)) { Ok(g) => g, Err(_) => { assert!(false); return; } };
+                let f = match TopicFilter::try_from(flv) { Ok(f) => f, Err(_) => { assert!(false); return; } };
+                let g = match TopicFilter::try_from(glv) { Ok(g) => g, Err(_) => { assert!(false); return; } };
                 let covers = f.matches_filter(&g);
-                let g_matches = spec_match(&gd[..gl], &td[..tl]);
-                let f_matches = spec_match(&fd[..fl], &td[..tl]);
+                let g_matches = spec_match(&gt.d[..gt.n], &td[..tl]);
+                let f_matches = spec_match(&ft.d[..ft.n], &td[..tl]);
                 // soundness of the covering relation w.r.t. section 4.7 matching
-                assert!(!(covers && g_matches) || f_matches);
+                assert!(!(covers && g_matches) || f_matches, "covering filter misses a topic of the covered filter");
                 vcover!(covers && g_matches, "covering pair with a witness topic");
                 vcover!(!covers, "non-covering pair");
-                vcover!(covers && gd[0] == b'$', "covering a filter whose first level starts with $");
+                vcover!(covers && gt.d[0] == b'$', "covering a filter whose first level starts with $");
+                vcover!(covers && ft.d[ft.n - 1] == b'#' && gt.n < ft.n, "covering by parent match of #");
             }
         }
     };
@@ -346,53 +421,128 @@ macro_rules! tp_cover_sound {
 //@ tier: quick
 //@ stubs: yes
 //@ unwindset: memcmp=3 CharSearcher=2
-//@ functions: TopicFilter::matches_filter, match_topic, match_level_impl, TryFrom<ByteString> for TopicFilter
-//@ bounds: all triples (covering filter, covered filter, topic), each ASCII of length 1..=3
+//@ functions: TopicFilter::matches_filter, match_topic, match_level_impl, MatchLevel for TopicFilterLevel, TryFrom<Vec<TopicFilterLevel>>
+//@ bounds: all triples (covering filter, covered filter, topic): filters of 1..=3 levels (literal levels one ASCII byte incl. '$'), topics 1..=5 ASCII bytes
 //@ assumes: bytes in 1..=127; both filters valid, topic valid (section 4.7.1 oracle)
-//@ mem: 8  timeout: 900
-//@ desc: f.matches_filter(g) and g matches t (oracle) implies f matches t (oracle): the covering relation is sound incl. the $ rule
-tp_cover_sound!(tp_cover_sound_3, 3, 7);
-//@ props: C18
-//@ tier: thorough
-//@ stubs: yes
-//@ unwindset: memcmp=3 CharSearcher=2
-//@ functions: TopicFilter::matches_filter, match_topic, match_level_impl
-//@ bounds: all triples, each ASCII of length 1..=4
-//@ assumes: bytes in 1..=127; both filters valid, topic valid
-//@ mem: 14  timeout: 3000
-//@ desc: as tp_cover_sound_3, length 4
-tp_cover_sound!(tp_cover_sound_4, 4, 8);
+//@ mem: 10  timeout: 1200
+//@ desc: f.matches_filter(g) and g matches t (oracle) implies f matches t (oracle): the covering relation is sound, incl. the rule that a leading wildcard does not cover '$' topics
+tp_cover_sound!(tp_cover_sound_3, 3, 5, 8);
 
 macro_rules! tp_display_rt {
-    ($name:ident, $n:expr, $uw:expr) => {
+    ($name:ident, $nl:expr, $s:expr, $uw:expr) => {
         vharness! {
-            #[kani::stub(str::contains, stub_str_contains)]
-            #[kani::stub(str::starts_with, stub_str_starts_with)]
-            #[kani::stub(core::slice::memchr::memchr, stub_memchr)]
             fn $name() unwind($uw) {
-                let (fd, fl) = any_ascii::<$n>();
-                vk::assume(spec_valid_filter(&fd[..fl]));
-                let f = match TopicFilter::try_from(bstr(fd, fl)) { Ok(f) => f, Err(_) => { assert!(false); return; } };
-                // Display / write_topic produce the original text
+                let (lv, ft) = any_levels::<$nl, $s>();
+                vk::assume(spec_valid_filter(&ft.d[..ft.n]));
+                let f = match TopicFilter::try_from(lv) { Ok(f) => f, Err(_) => { assert!(false); return; } };
+                // write_topic reproduces the text
                 let mut out = [0u8; 16];
                 let n = {
                     let mut w: &mut [u8] = &mut out[..];
                     match w.write_topic(&f) { Ok(n) => n, Err(_) => { assert!(false); return; } }
                 };
-                assert!(n == fl);
+                assert!(n == ft.n);
                 let mut i = 0;
-                while i < fl {
-                    assert!(out[i] == fd[i]);
+                while i < ft.n {
+                    assert!(out[i] == ft.d[i]);
                     i += 1;
                 }
-                // parse(display(parse(f))) == parse(f)
-                let mut cp = [0u8; $n];
+                vcover!(f.levels().len() == $nl, "maximum number of levels");
+            }
+        }
+    };
+}
+macro_rules! tp_display_fmt {
+    ($name:ident, $nl:expr, $s:expr, $uw:expr) => {
+        vharness! {
+            fn $name() unwind($uw) {
+                let (lv, ft) = any_levels::<$nl, $s>();
+                vk::assume(spec_valid_filter(&ft.d[..ft.n]));
+                let f = match TopicFilter::try_from(lv) { Ok(f) => f, Err(_) => { assert!(false); return; } };
+                // Display reproduces the text
+                let mut fb = FixedW { d: [0; 16], n: 0 };
+                use std::fmt::Write as _;
+                assert!(write!(fb, "{}", f).is_ok());
+                assert!(fb.n == ft.n);
                 let mut i = 0;
-                while i < fl && i < $n { cp[i] = out[i]; i += 1; }
-                let f2 = match TopicFilter::try_from(bstr(cp, fl)) { Ok(f) => f, Err(_) => { assert!(false); return; } };
-                assert!(f2 == f);
-                vcover!(fl == $n, "full length filter");
-                vcover!(f.levels().len() >= 3, "three or more levels");
+                while i < ft.n {
+                    assert!(fb.d[i] == ft.d[i]);
+                    i += 1;
+                }
+                vcover!(f.levels().len() == $nl, "maximum number of levels");
+            }
+        }
+    };
+}
+struct FixedW {
+    d: [u8; 16],
+    n: usize,
+}
+impl std::fmt::Write for FixedW {
+    fn write_str(&mut self, s: &str) -> std::fmt::Result {
+        let b = s.as_bytes();
+        let mut i = 0;
+        while i < b.len() {
+            if self.n >= 16 {
+                return Err(std::fmt::Error);
+            }
+            self.d[self.n] = b[i];
+            self.n += 1;
+            i += 1;
+        }
+        Ok(())
+    }
+}
+//@ props: C18
+//@ tier: thorough
+//@ functions: WriteTopicExt::{write_topic, write_level} (crate-internal, unused helper), TryFrom<Vec<TopicFilterLevel>>
+//@ bounds: all valid filters of 1..=2 levels (literals one ASCII byte)
+//@ assumes: bytes in 1..=127; filter valid
+//@ mem: 16  timeout: 1800
+//@ desc: write_topic serialises a filter to exactly the text its levels denote (io::Write on a byte slice is costly for CBMC: 3 levels ran out of memory at 8 GB)
+tp_display_rt!(tp_display_rt_2, 2, 1, 6);
+//@ props: C18
+//@ tier: quick
+//@ functions: fmt::Display for TopicFilter, fmt::Display for TopicFilterLevel (through core::fmt::write)
+//@ bounds: all valid filters of 1..=2 levels (literals one ASCII byte)
+//@ assumes: bytes in 1..=127; filter valid
+//@ mem: 10  timeout: 900
+//@ desc: Display formats a filter to exactly the text its levels denote (with tp_parse_*: parse/display round trip)
+tp_display_fmt!(tp_display_fmt_2, 2, 1, 6);
+
+macro_rules! tp_parse {
+    ($name:ident, $n:expr, $uw:expr) => {
+        vharness! {
+            #[kani::stub(str::contains, stub_str_contains)]
+            #[kani::stub(str::starts_with, stub_str_starts_with)]
+            #[kani::stub(core::slice::memchr::memchr, stub_memchr)]
+            fn $name() unwind($uw) {
+                let (d, len) = any_ascii::<$n>();
+                vk::assume(spec_valid_filter(&d[..len]));
+                let f = match TopicFilter::try_from(bstr(d, len)) { Ok(f) => f, Err(_) => { assert!(false); return; } };
+                let lv = f.levels();
+                assert!(lv.len() == spec_level_count(&d[..len]));
+                let mut i = 0;
+                while i < lv.len() {
+                    let (a, b) = spec_level(&d[..len], i).unwrap();
+                    let txt = &d[a..b];
+                    match &lv[i] {
+                        TopicFilterLevel::Blank => assert!(txt.is_empty()),
+                        TopicFilterLevel::SingleWildcard => assert!(txt.len() == 1 && txt[0] == b'+'),
+                        TopicFilterLevel::MultiWildcard => assert!(txt.len() == 1 && txt[0] == b'#'),
+                        TopicFilterLevel::System(s) => {
+                            assert!(i == 0 && !txt.is_empty() && txt[0] == b'$');
+                            assert!(s.as_bytes() == txt);
+                        }
+                        TopicFilterLevel::Normal(s) => {
+                            assert!(!txt.is_empty() && !(i == 0 && txt[0] == b'$'));
+                            assert!(s.as_bytes() == txt);
+                        }
+                    }
+                    i += 1;
+                }
+                vcover!(lv.len() == 3, "three levels");
+                vcover!(matches!(lv[0], TopicFilterLevel::System(_)), "system first level");
             }
         }
     };
@@ -401,8 +551,9 @@ macro_rules! tp_display_rt {
 //@ tier: quick
 //@ stubs: yes
 //@ unwindset: memcmp=3 CharSearcher=2
-//@ functions: WriteTopicExt::write_topic, write_level, TryFrom<ByteString> for TopicFilter, PartialEq for TopicFilter
-//@ bounds: all valid ASCII filters of length 1..=4
-//@ assumes: bytes in 1..=127; filter valid
-//@ desc: serialising a parsed filter reproduces the text byte for byte and re-parsing yields an equal filter
-tp_display_rt!(tp_display_rt_4, 4, 8);
+//@ functions: TryFrom<ByteString> for TopicFilter, recover_bstr, is_system, TopicFilter::levels
+//@ bounds: all valid ASCII filters of length 1..=3
+//@ assumes: bytes in 1..=127; filter valid per oracle
+//@ mem: 12  timeout: 1500
+//@ desc: parsing text yields exactly the level list the text denotes (kinds and literal bytes, System only for a first level starting with '$'): links the level-list harnesses to filter strings; with tp_display_rt this is the parse/display round trip
+tp_parse!(tp_parse_3, 3, 6);
